@@ -78,6 +78,132 @@ Lemma map_map_id {A} (l : list (list A)) : map (map (fun x : A => x)) l = l.
 Proof. induction l as [|a l IH]; cbn; [reflexivity|]. now rewrite map_id, IH. Qed.
 
 (* ------------------------------------------------------------------ *)
+(* shell-pair blocks given by an entry function, through Assembly.shell_block:
+   any element module (A, azero, aadd, ascale), no laws needed           *)
+(* ------------------------------------------------------------------ *)
+Section Blk4.
+Context {F : Type} (K : Fops F).
+Context {A : Type} (azero : A) (aadd : A -> A -> A) (ascale : F -> A -> A).
+
+Definition blk4 (M1 L1 M2 L2 : nat) (e : nat -> nat -> nat -> nat -> A) : list (list (list (list A))) :=
+  mk M1 (fun ma => mk L1 (fun ia => mk M2 (fun mb => mk L2 (fun ib => e ma ia mb ib)))).
+
+Lemma blk4_ext M1 L1 M2 L2 e e' :
+  (forall ma ia mb ib, ma < M1 -> ia < L1 -> mb < M2 -> ib < L2 -> e ma ia mb ib = e' ma ia mb ib) ->
+  blk4 M1 L1 M2 L2 e = blk4 M1 L1 M2 L2 e'.
+Proof.
+  intros H. unfold blk4. apply mk_ext; intros ma Hma. apply mk_ext; intros ia Hia.
+  apply mk_ext; intros mb Hmb. apply mk_ext; intros ib Hib. now apply H.
+Qed.
+
+(* sum_k trow[k] * g k over k < n (truncated to the length of trow): tensordot along one axis *)
+Definition lcomb (trow : list F) (n : nat) (g : nat -> A) : A :=
+  asum azero aadd (map (fun p => ascale (fst p) (g (snd p))) (combine trow (seq 0 n))).
+
+Lemma lcomb_ext trow n g g' : (forall c, c < n -> g c = g' c) -> lcomb trow n g = lcomb trow n g'.
+Proof.
+  intros H. unfold lcomb. f_equal. apply map_ext_in. intros [t c] Hin. cbn [fst snd].
+  f_equal. apply H. eapply in_combine_seq. exact Hin.
+Qed.
+
+Lemma normalise_blk4 M1 L1 M2 L2 (n1 n2 : nat -> nat -> F) e :
+  normalise K ascale (mk M1 (fun m => mk L1 (n1 m))) (mk M2 (fun m => mk L2 (n2 m))) (blk4 M1 L1 M2 L2 e)
+  = blk4 M1 L1 M2 L2 (fun ma ia mb ib => ascale (fmul K (n1 ma ia) (n2 mb ib)) (e ma ia mb ib)).
+Proof.
+  unfold normalise, blk4. rewrite combine_mk, map_mk'. apply mk_ext; intros ma _.
+  rewrite combine_mk, map_mk'. apply mk_ext; intros ia _.
+  rewrite combine_mk, map_mk'. apply mk_ext; intros mb _.
+  rewrite combine_mk, map_mk'. apply mk_ext; intros ib _. reflexivity.
+Qed.
+
+Lemma fold_slab M2 L2 (ee : nat -> nat -> nat -> A) (G : list (F * nat)) :
+  fold_right (slab_add aadd) (mk M2 (fun _ => mk L2 (fun _ => azero)))
+    (map (fun ts : F * list (list A) => let '(t, sl) := ts in slab_scale ascale t sl)
+         (map (fun p => (fst p, mk M2 (fun mb => mk L2 (fun ib => ee (snd p) mb ib)))) G))
+  = mk M2 (fun mb => mk L2 (fun ib =>
+      asum azero aadd (map (fun p => ascale (fst p) (ee (snd p) mb ib)) G))).
+Proof.
+  induction G as [|[t c] G IH]; cbn [map fold_right fst snd]; [reflexivity|].
+  rewrite IH. unfold slab_add, slab_scale. rewrite !map_mk'. rewrite combine_mk, map_mk'.
+  apply mk_ext; intros mb _. rewrite map_mk'. rewrite combine_mk, map_mk'. reflexivity.
+Qed.
+
+Lemma tleft_blk4 T M1 L1 M2 L2 e : 0 < L1 ->
+  transform_left azero aadd ascale T (blk4 M1 L1 M2 L2 e)
+  = blk4 M1 (length T) M2 L2 (fun ma r mb ib => lcomb (nth r T []) L1 (fun c => e ma c mb ib)).
+Proof.
+  intros HL. unfold transform_left, blk4 at 1. rewrite map_mk'. unfold blk4. apply mk_ext; intros ma _.
+  rewrite (map_as_mk _ T []). apply mk_ext; intros r _.
+  rewrite hd_mk by exact HL. unfold slab_zero. rewrite !map_mk'.
+  unfold mk at 3. rewrite combine_map_r'.
+  change (mk M2 (fun j => map (fun _ : A => azero) (mk L2 (fun ib => e ma 0 j ib))))
+    with (mk M2 (fun j => map (fun _ : A => azero) (mk L2 (fun ib => e ma 0 j ib)))).
+  assert (Ez : mk M2 (fun j => map (fun _ : A => azero) (mk L2 (fun ib => e ma 0 j ib)))
+               = mk M2 (fun _ => mk L2 (fun _ => azero))).
+  { apply mk_ext; intros mb _. now rewrite map_mk'. }
+  rewrite Ez. rewrite (fold_slab M2 L2 (fun c mb ib => e ma c mb ib)). reflexivity.
+Qed.
+
+Lemma tright_blk4 T M1 L1 M2 L2 e :
+  transform_right azero aadd ascale T (blk4 M1 L1 M2 L2 e)
+  = blk4 M1 L1 M2 (length T) (fun ma ia mb r => lcomb (nth r T []) L2 (fun c => e ma ia mb c)).
+Proof.
+  unfold transform_right, blk4. rewrite map_mk'. apply mk_ext; intros ma _.
+  rewrite map_mk'. apply mk_ext; intros ia _. rewrite map_mk'. apply mk_ext; intros mb _.
+  unfold apply_rows. rewrite (map_as_mk _ T []). apply mk_ext; intros r _.
+  unfold lcomb. f_equal. unfold mk. rewrite combine_map_r', map_map.
+  apply map_ext. intros [t c]. reflexivity.
+Qed.
+
+Definition flat4 (M1 R1 M2 R2 : nat) (e : nat -> nat -> nat -> nat -> A) : list (list A) :=
+  concat (mk M1 (fun ma => mk R1 (fun r1 => concat (mk M2 (fun mb => mk R2 (fun r2 => e ma r1 mb r2)))))).
+
+Lemma flat4_ext M1 R1 M2 R2 e e' :
+  (forall ma r1 mb r2, ma < M1 -> r1 < R1 -> mb < M2 -> r2 < R2 -> e ma r1 mb r2 = e' ma r1 mb r2) ->
+  flat4 M1 R1 M2 R2 e = flat4 M1 R1 M2 R2 e'.
+Proof.
+  intros H. unfold flat4. f_equal. apply mk_ext; intros ma Hma. apply mk_ext; intros ia Hia. f_equal.
+  apply mk_ext; intros mb Hmb. apply mk_ext; intros ib Hib. now apply H.
+Qed.
+
+Lemma flatten_blk4 M1 L1 M2 L2 e : flatten_block (blk4 M1 L1 M2 L2 e) = flat4 M1 L1 M2 L2 e.
+Proof.
+  unfold flatten_block, blk4, flat4. rewrite flat_map_concat_map, map_mk'. f_equal.
+  apply mk_ext; intros ma _. now rewrite map_mk'.
+Qed.
+
+(* entries after the per-index processing *)
+Definition eL (sph1 : bool) (T1 : list (list F)) (L1 : nat) (e : nat -> nat -> nat -> nat -> A) :=
+  fun ma r mb ib => if sph1 then lcomb (nth r T1 []) L1 (fun c => e ma c mb ib) else e ma r mb ib.
+Definition eR (sph2 : bool) (T2 : list (list F)) (L2 : nat) (e : nat -> nat -> nat -> nat -> A) :=
+  fun ma r mb r2 => if sph2 then lcomb (nth r2 T2 []) L2 (fun c => e ma r mb c) else e ma r mb r2.
+Definition rows_of (sph : bool) (T : list (list F)) (L : nat) : nat := if sph then length T else L.
+
+Theorem shell_block_blk4 sph1 sph2 T1 T2 M1 L1 M2 L2 (n1 n2 : nat -> nat -> F) e : 0 < L1 ->
+  shell_block K azero aadd ascale sph1 sph2 T1 T2
+    (mk M1 (fun m => mk L1 (n1 m))) (mk M2 (fun m => mk L2 (n2 m))) (blk4 M1 L1 M2 L2 e)
+  = flat4 M1 (rows_of sph1 T1 L1) M2 (rows_of sph2 T2 L2)
+      (eR sph2 T2 L2 (eL sph1 T1 L1
+         (fun ma ia mb ib => ascale (fmul K (n1 ma ia) (n2 mb ib)) (e ma ia mb ib)))).
+Proof.
+  intros HL. unfold shell_block. rewrite normalise_blk4.
+  destruct sph1, sph2; unfold rows_of, eL, eR;
+    rewrite ?(tleft_blk4 _ _ _ _ _ _ HL), ?tright_blk4; apply flatten_blk4.
+Qed.
+
+(* the table of a bilinear pairing of two families indexed like the block *)
+Lemma outer_flat4 {D} (f : D -> D -> A) M1 R1 M2 R2 (d1 d2 : nat -> nat -> D) :
+  map (fun x => map (fun y => f x y) (concat (mk M2 (fun mb => mk R2 (d2 mb)))))
+      (concat (mk M1 (fun ma => mk R1 (d1 ma))))
+  = flat4 M1 R1 M2 R2 (fun ma r1 mb r2 => f (d1 ma r1) (d2 mb r2)).
+Proof.
+  unfold flat4. rewrite concat_map_map, map_mk'. f_equal. apply mk_ext; intros ma _.
+  rewrite map_mk'. apply mk_ext; intros r1 _.
+  rewrite concat_map_map, map_mk'. f_equal. apply mk_ext; intros mb _. now rewrite map_mk'.
+Qed.
+End Blk4.
+
+(* ------------------------------------------------------------------ *)
 Section P.
 Context {F : Type} (K : Fops F) (Kf : is_field K).
 Add Field KF16 : Kf.
@@ -129,8 +255,12 @@ Qed.
 (* ------------------------------------------------------------------ *)
 (* descriptors                                                          *)
 (* ------------------------------------------------------------------ *)
-Record pterm := mkT { t_w : F; t_x : F; t_y : F; t_z : F; t_a : F; t_c : comp }.
+(* a primitive Cartesian Gaussian (x-X)^a (y-Y)^b (z-Z)^c exp(-alpha |r-R|^2) and a weighted one *)
+Record gprim := mkG { g_x : F; g_y : F; g_z : F; g_a : F; g_c : comp }.
+Record pterm := mkT { t_w : F; t_g : gprim }.
 Definition fdesc := list pterm.
+Definition t_x t := g_x (t_g t).  Definition t_y t := g_y (t_g t).  Definition t_z t := g_z (t_g t).
+Definition t_a t := g_a (t_g t).  Definition t_c t := g_c (t_g t).
 
 Definition cx (c : comp) : nat := fst (fst c).
 Definition cy (c : comp) : nat := snd (fst c).
@@ -156,7 +286,7 @@ Lemma eval_spec_unfold d r :
 Proof. reflexivity. Qed.
 
 Definition dscale (s : F) (d : fdesc) : fdesc :=
-  map (fun t => mkT (s * t_w t) (t_x t) (t_y t) (t_z t) (t_a t) (t_c t)) d.
+  map (fun t => mkT (s * t_w t) (t_g t)) d.
 (* sum_k trow[k] * ds[k] *)
 Definition dcomb (trow : list F) (ds : list fdesc) : fdesc :=
   concat (map (fun p => dscale (fst p) (snd p)) (combine trow ds)).
@@ -167,7 +297,7 @@ Proof. unfold deriv_spec. now rewrite map_app, fsum_app. Qed.
 Lemma deriv_spec_dscale o s d r : deriv_spec o (dscale s d) r = s * deriv_spec o d r.
 Proof.
   unfold deriv_spec, dscale. rewrite map_map, <- fsum_scale. apply fsum_ext_in. intros t _.
-  unfold term_val. cbn [t_w t_x t_y t_z t_a t_c]. ring.
+  unfold term_val, t_x, t_y, t_z, t_a, t_c. cbn [t_w t_g]. ring.
 Qed.
 
 Lemma deriv_spec_dcomb o trow ds r :
@@ -187,7 +317,7 @@ Definition compi (s : shell F) (ic : nat) : comp := nth ic (comps_of s) (0, 0, 0
    weight = norm_cont * (coefficient * norm_prim) *)
 Definition cart_desc (s : shell F) (m ic : nat) : fdesc :=
   map (fun ae => mkT (ncf s m ic * (nth m (snd ae) 0 * norm_prim K (s_l s) (compi s ic) (fst ae)))
-                     (s_x s) (s_y s) (s_z s) (fst ae) (compi s ic))
+                     (mkG (s_x s) (s_y s) (s_z s) (fst ae) (compi s ic)))
       (combine (s_exps s) (s_coeffs s)).
 
 Definition seg_descs (s : shell F) (m : nat) : list fdesc :=
@@ -227,6 +357,27 @@ Proof.
   unfold norm_cont. rewrite nth_mk by exact Hm. now rewrite nth_mk by exact Hc.
 Qed.
 
+Lemma nth_norms s ic : (ic < ncomp s)%nat ->
+  nth ic (norms K s) [] = map (norm_prim K (s_l s) (compi s ic)) (s_exps s).
+Proof.
+  intros Hic. unfold norms, compi.
+  rewrite (nth_indep _ [] (map (norm_prim K (s_l s) (0,0,0)%nat) (s_exps s)))
+    by (rewrite map_length; exact Hic).
+  now rewrite (map_nth (fun c => map (norm_prim K (s_l s) c) (s_exps s))).
+Qed.
+
+(* the descriptors as a doubly indexed family: segment m, row r (component or spherical row) *)
+Definition dd (s : shell F) (m r : nat) : fdesc :=
+  if s_sph s then dcomb (nth r (shell_transform K s) []) (mk (ncomp s) (cart_desc s m))
+  else cart_desc s m r.
+Definition nrows (s : shell F) : nat := rows_of (s_sph s) (shell_transform K s) (ncomp s).
+
+Lemma descr_mk s : descr s = concat (mk (nseg s) (fun m => mk (nrows s) (dd s m))).
+Proof.
+  unfold descr, seg_descs, nrows, rows_of, dd. f_equal. apply mk_ext; intros m _.
+  destruct (s_sph s); [|reflexivity]. now rewrite (map_as_mk _ (shell_transform K s) []).
+Qed.
+
 (* ------------------------------------------------------------------ *)
 (* evaluation side                                                      *)
 (* ------------------------------------------------------------------ *)
@@ -257,11 +408,7 @@ Proof.
   rewrite (nth_map_combine _ (comps_of s) (norms K s) ic (0,0,0)%nat [] 0)
     by (rewrite ?length_norms; auto).
   fold (compi s ic).
-  assert (En : nth ic (norms K s) [] = map (norm_prim K (s_l s) (compi s ic)) (s_exps s)).
-  { unfold norms. rewrite (nth_indep _ [] (map (norm_prim K (s_l s) (0,0,0)%nat) (s_exps s)))
-      by (rewrite map_length; exact Hic).
-    now rewrite (map_nth (fun c => map (norm_prim K (s_l s) c) (s_exps s))). }
-  rewrite En. unfold raw_entry.
+  rewrite (nth_norms s ic Hic). unfold raw_entry.
   pose proof (Hle _ (compi_in s ic Hic)) as Hc.
   destruct (compi s ic) as [[ax ay] az] eqn:Ec.
   rewrite combine_map_both, map_map.
@@ -279,7 +426,8 @@ Lemma cart_entry (s : shell F) m ic p :
   ncf s m ic * raw_entry s m ic p = deriv_spec o (cart_desc s m ic) p.
 Proof.
   unfold raw_entry, deriv_spec, cart_desc. rewrite map_map, <- fsum_scale.
-  apply fsum_ext_in. intros [alpha crow] _. unfold term_val. cbn [fst snd t_w t_x t_y t_z t_a t_c]. ring.
+  apply fsum_ext_in. intros [alpha crow] _. unfold term_val, t_x, t_y, t_z, t_a, t_c.
+  cbn [fst snd t_w t_g g_x g_y g_z g_a g_c]. ring.
 Qed.
 
 (* vectors over the points: the module the one-index assembly works in *)
@@ -375,5 +523,173 @@ Proof.
   intros Hok. pose proof (same_function_eval (0,0,0)%nat pts basis Hok) as E.
   unfold evaluate_deriv_basis_model in E. cbn [accepts] in E. injection E as E. exact E.
 Qed.
+
+(* ------------------------------------------------------------------ *)
+(* integral side: bilinear pairing of descriptors                       *)
+(* ------------------------------------------------------------------ *)
+(* sum_{t1 in d1} sum_{t2 in d2} w1 w2 I(t1, t2), I a function of the two primitives only *)
+Definition pair_spec (Ip : gprim -> gprim -> F) (d1 d2 : fdesc) : F :=
+  fsum (map (fun t1 => fsum (map (fun t2 => t_w t1 * t_w t2 * Ip (t_g t1) (t_g t2)) d2)) d1).
+
+Lemma pair_spec_flip Ip d1 d2 : pair_spec Ip d1 d2 = pair_spec (fun x y => Ip y x) d2 d1.
+Proof.
+  unfold pair_spec. rewrite fsum_swap. apply fsum_ext_in; intros t2 _.
+  apply fsum_ext_in; intros t1 _. ring.
+Qed.
+
+Lemma pair_spec_app_l Ip d d' d2 : pair_spec Ip (d ++ d') d2 = pair_spec Ip d d2 + pair_spec Ip d' d2.
+Proof. unfold pair_spec. now rewrite map_app, fsum_app. Qed.
+
+Lemma pair_spec_dscale_l Ip c d d2 : pair_spec Ip (dscale c d) d2 = c * pair_spec Ip d d2.
+Proof.
+  unfold pair_spec, dscale. rewrite map_map, <- fsum_scale. apply fsum_ext_in; intros t1 _.
+  cbn [t_w t_g]. rewrite <- fsum_scale. apply fsum_ext_in; intros t2 _. ring.
+Qed.
+
+Lemma pair_spec_dcomb_l Ip trow ds d2 :
+  pair_spec Ip (dcomb trow ds) d2 = fsum (map (fun p => fst p * pair_spec Ip (snd p) d2) (combine trow ds)).
+Proof.
+  unfold dcomb. induction (combine trow ds) as [|[t d] L IH]; cbn [map concat fst snd]; [reflexivity|].
+  now rewrite pair_spec_app_l, pair_spec_dscale_l, fsum_cons, IH.
+Qed.
+
+Lemma pair_spec_dcomb_r Ip d1 trow ds :
+  pair_spec Ip d1 (dcomb trow ds) = fsum (map (fun p => fst p * pair_spec Ip d1 (snd p)) (combine trow ds)).
+Proof.
+  rewrite pair_spec_flip, pair_spec_dcomb_l. apply fsum_ext_in; intros p _.
+  now rewrite (pair_spec_flip Ip d1 (snd p)).
+Qed.
+
+Lemma pair_spec_sym Ip d1 d2 : (forall x y, Ip x y = Ip y x) -> pair_spec Ip d1 d2 = pair_spec Ip d2 d1.
+Proof.
+  intros H. rewrite pair_spec_flip. unfold pair_spec. apply fsum_ext_in; intros t1 _.
+  apply fsum_ext_in; intros t2 _. now rewrite H.
+Qed.
+
+Lemma pair_spec_maps {A B} Ip (f : A -> pterm) (g : B -> pterm) la lb :
+  pair_spec Ip (map f la) (map g lb)
+  = fsum (map (fun a => fsum (map (fun b => t_w (f a) * t_w (g b) * Ip (t_g (f a)) (t_g (g b))) lb)) la).
+Proof. unfold pair_spec. rewrite map_map. apply fsum_ext_in; intros a _. now rewrite map_map. Qed.
+
+(* tensordot of a transform row with entries that are pairings = pairing with the combined descriptor *)
+Lemma lcomb_l Ip trow L (g : nat -> F) (cd : nat -> fdesc) d2 :
+  (forall c, (c < L)%nat -> g c = pair_spec Ip (cd c) d2) ->
+  lcomb 0 (fadd K) (fmul K) trow L g = pair_spec Ip (dcomb trow (mk L cd)) d2.
+Proof.
+  intros H. rewrite pair_spec_dcomb_l. unfold lcomb, mk. rewrite combine_map_r', map_map.
+  change (asum 0 (fadd K)) with fsum. apply fsum_ext_in. intros [t c] Hin. cbn [fst snd].
+  rewrite H; [reflexivity|]. eapply in_combine_seq. exact Hin.
+Qed.
+
+Lemma lcomb_r Ip trow L (g : nat -> F) d1 (cd : nat -> fdesc) :
+  (forall c, (c < L)%nat -> g c = pair_spec Ip d1 (cd c)) ->
+  lcomb 0 (fadd K) (fmul K) trow L g = pair_spec Ip d1 (dcomb trow (mk L cd)).
+Proof.
+  intros H. rewrite pair_spec_dcomb_r. unfold lcomb, mk. rewrite combine_map_r', map_map.
+  change (asum 0 (fadd K)) with fsum. apply fsum_ext_in. intros [t c] Hin. cbn [fst snd].
+  rewrite H; [reflexivity|]. eapply in_combine_seq. exact Hin.
+Qed.
+
+Lemma combine3 {A B C D} (g : A -> B) (h : A -> C) (l : list A) (l2 : list D) :
+  combine (map g l) (combine (map h l) l2) = map (fun p => (g (fst p), (h (fst p), snd p))) (combine l l2).
+Proof. revert l2; induction l as [|a l IH]; intros [|b l2]; cbn; [reflexivity..|]. now rewrite IH. Qed.
+
+Section Pair.
+Variables (sa sb : shell F).
+
+(* every two-index kernel hands [block_of] the (K_b, K_a) matrices of primitive integrals of one
+   pair of components: here as a function J alpha beta ca cb of the two exponents *)
+Section Kernel.
+Variable J : F -> F -> comp -> comp -> F.
+
+Definition pfJ (ca cb : comp) : list (list F) :=
+  map (fun beta => map (fun alpha => J alpha beta ca cb) (s_exps sa)) (s_exps sb).
+
+(* the defining double sum over the primitives (coefficient x primitive norm on both sides) *)
+Definition ES (ma ia mb ib : nat) : F :=
+  fsum (map (fun bq =>
+      fsum (map (fun ap => J (fst ap) (fst bq) (compi sa ia) (compi sb ib)
+                           * norm_prim K (s_l sa) (compi sa ia) (fst ap) * nth ma (snd ap) 0)
+                (combine (s_exps sa) (s_coeffs sa)))
+      * norm_prim K (s_l sb) (compi sb ib) (fst bq) * nth mb (snd bq) 0)
+    (combine (s_exps sb) (s_coeffs sb))).
+
+Lemma entry_sum_pfJ ma ia mb ib : (ia < ncomp sa)%nat -> (ib < ncomp sb)%nat ->
+  entry_sum K sa sb (pfJ (compi sa ia) (compi sb ib)) (nth ia (norms K sa) []) (nth ib (norms K sb) []) ma mb
+  = ES ma ia mb ib.
+Proof.
+  intros Ha Hb. rewrite (nth_norms sa ia Ha), (nth_norms sb ib Hb). unfold entry_sum, pfJ, ES.
+  rewrite combine3, map_map. apply fsum_ext_in; intros [beta crow_b] _. cbn [fst snd].
+  now rewrite combine3, map_map.
+Qed.
+End Kernel.
+
+Lemma block_of_blk4 pf :
+  block_of K sa sb pf = blk4 (nseg sa) (ncomp sa) (nseg sb) (ncomp sb) (fun ma ia mb ib =>
+    entry_sum K sa sb (pf (compi sa ia) (compi sb ib)) (nth ia (norms K sa) []) (nth ib (norms K sb) []) ma mb).
+Proof.
+  assert (E : block_of K sa sb pf = blk4 (nseg sa) (ncomp sa) (nseg sb) (ncomp sb) (fun ma ia mb ib =>
+                nth ib (nth mb (nth ia (nth ma (block_of K sa sb pf) []) []) []) 0)).
+  { unfold block_of at 1. cbv zeta. rewrite !combine_length, !length_norms, !Nat.min_id.
+    fold (ncomp sa) (ncomp sb). apply blk4_ext. intros ma ia mb ib Hma Hia Hmb Hib.
+    unfold block_of. cbv zeta. rewrite !combine_length, !length_norms, !Nat.min_id.
+    fold (ncomp sa) (ncomp sb).
+    rewrite (nth_mk _ _ _ ma Hma), (nth_mk _ _ _ ia Hia), (nth_mk _ _ _ mb Hmb), (nth_mk _ _ _ ib Hib).
+    reflexivity. }
+  rewrite E. apply blk4_ext. intros ma ia mb ib Hma Hia Hmb Hib.
+  now apply block_of_entry.
+Qed.
+
+Lemma block_of_ext pf pf' : (forall ca cb, pf ca cb = pf' ca cb) -> block_of K sa sb pf = block_of K sa sb pf'.
+Proof. intros H. rewrite !block_of_blk4. apply blk4_ext. intros. now rewrite H. Qed.
+
+Lemma block_of_pfJ J :
+  block_of K sa sb (pfJ J) = blk4 (nseg sa) (ncomp sa) (nseg sb) (ncomp sb) (ES J).
+Proof. rewrite block_of_blk4. apply blk4_ext. intros. now apply entry_sum_pfJ. Qed.
+
+(* ---- the processed block is the table of pairings of the descriptors ---- *)
+Definition gp (s : shell F) (alpha : F) (ic : nat) : gprim := mkG (s_x s) (s_y s) (s_z s) alpha (compi s ic).
+
+Section Processed.
+Variables (J : F -> F -> comp -> comp -> F) (Ip : gprim -> gprim -> F).
+(* the kernel's primitive integral is I of the two primitives *)
+Hypothesis HJ : forall alpha beta ia ib,
+  In alpha (s_exps sa) -> In beta (s_exps sb) -> (ia < ncomp sa)%nat -> (ib < ncomp sb)%nat ->
+  J alpha beta (compi sa ia) (compi sb ib) = Ip (gp sa alpha ia) (gp sb beta ib).
+
+Lemma core_entry ma ia mb ib : (ia < ncomp sa)%nat -> (ib < ncomp sb)%nat ->
+  (ncf sa ma ia * ncf sb mb ib) * ES J ma ia mb ib = pair_spec Ip (cart_desc sa ma ia) (cart_desc sb mb ib).
+Proof.
+  intros Ha Hb. unfold cart_desc. rewrite pair_spec_maps, fsum_swap. unfold ES.
+  rewrite <- fsum_scale. apply fsum_ext_in; intros [beta crow_b] Hinb. cbn [fst snd t_w t_g].
+  transitivity ((ncf sa ma ia * ncf sb mb ib * norm_prim K (s_l sb) (compi sb ib) beta * nth mb crow_b 0)
+                * fsum (map (fun ap => J (fst ap) beta (compi sa ia) (compi sb ib)
+                                       * norm_prim K (s_l sa) (compi sa ia) (fst ap) * nth ma (snd ap) 0)
+                            (combine (s_exps sa) (s_coeffs sa)))); [ring|].
+  rewrite <- fsum_scale. apply fsum_ext_in; intros [alpha crow_a] Hina. cbn [fst snd].
+  rewrite (HJ alpha beta ia ib (in_combine_l _ _ _ _ Hina) (in_combine_l _ _ _ _ Hinb) Ha Hb).
+  unfold gp. ring.
+Qed.
+
+Theorem processed_block_descr (blk : list (list (list (list F)))) :
+  comps_ok sa ->
+  blk = blk4 (nseg sa) (ncomp sa) (nseg sb) (ncomp sb) (ES J) ->
+  shell_block K 0 (fadd K) (fmul K) (s_sph sa) (s_sph sb) (shell_transform K sa) (shell_transform K sb)
+    (norm_cont K sa) (norm_cont K sb) blk
+  = map (fun d1 => map (fun d2 => pair_spec Ip d1 d2) (descr sb)) (descr sa).
+Proof.
+  intros Hok ->. rewrite (norm_cont_mk sa), (norm_cont_mk sb).
+  rewrite shell_block_blk4 by (now apply ncomp_pos).
+  rewrite (descr_mk sa), (descr_mk sb), outer_flat4. fold (nrows sa) (nrows sb).
+  apply flat4_ext. intros ma r1 mb r2 Hma Hr1 Hmb Hr2.
+  unfold eR, eL, dd, nrows, rows_of in *.
+  destruct (s_sph sa), (s_sph sb).
+  - apply lcomb_r. intros c Hc. apply lcomb_l. intros c1 Hc1. now apply core_entry.
+  - apply lcomb_l. intros c1 Hc1. now apply core_entry.
+  - apply lcomb_r. intros c Hc. now apply core_entry.
+  - now apply core_entry.
+Qed.
+End Processed.
+End Pair.
 
 End P.
